@@ -70,7 +70,12 @@ fn judge(id: &str, scn: &ParScn, o: &Outcome, st: &mut Stats) -> Vec<Violation> 
         let class = classify_failure(f);
         st.count(&format!("outcome.{}", class), 1);
         match class {
-            "deadlock" => add("C08.deadlock", format!("no task runnable before all had finished: {}", f)),
+            "deadlock" => {
+                add("C08.deadlock", format!("no task runnable before all had finished: {}", f));
+                if init_fault {
+                    add("C15.init_failure_hangs", format!("a failing init closure made the call hang instead of returning Err: {}", f));
+                }
+            }
             "step_bound" => add("C08.step_bound", format!("execution exceeded the step bound (livelock): {}", f)),
             _ => {
                 // a panic: an init failure must come back as Err (C15); anything else is reported
@@ -249,9 +254,25 @@ fn judge(id: &str, scn: &ParScn, o: &Outcome, st: &mut Stats) -> Vec<Violation> 
                 add("C15.record_after_error", format!("record {} reached the consumer but sequential reading stops before it", i));
             }
         }
+        if matches!(scn.api, Api::FastaInit | Api::FastqInit) {
+            // consecutive arrivals with the same data-set tag belong to one record set (the set
+            // the consumer holds cannot arrive again before it was handed back): inside a set
+            // the records are consecutive in file order
+            let mut prev: Option<(u32, usize)> = None;
+            for a in &h.arrivals {
+                if let Arrival::Rec { idx, tag, .. } = a {
+                    if let Some((pt, pi)) = prev {
+                        if pt == *tag && *idx != pi + 1 {
+                            add("C07.order_within_set", format!("record {} follows record {} inside one record set (data set {})", idx, pi, tag));
+                            break;
+                        }
+                    }
+                    prev = Some((*tag, *idx));
+                }
+            }
+        }
         if per_record {
-            // arrival sequence = concatenation of ascending consecutive runs; exactly file order
-            // with one worker
+            // exactly file order with one worker
             if scn.n_threads == 1 && arrived.windows(2).any(|w| w[1].0 != w[0].0 + 1) {
                 add("C07.order_single_worker", format!("with one worker thread records did not arrive in file order: {:?}", arrived.iter().map(|x| x.0).collect::<Vec<_>>()));
             }
